@@ -2,7 +2,7 @@
 import json
 from gen import common, sysattr, api, framing
 
-LEAN_MODULE = "XcmModel.Props.C04"
+LEAN_MODULE = ["XcmModel.Props.C04", "XcmModel.Props.Utls"]
 THEOREMS = [
     "XcmModel.C04.C04_pending_flush_is_watched", "XcmModel.C04.C04_idle_asks_nothing_extra",
     "XcmModel.C04.C04_condition_passed_down", "XcmModel.C04.C04_flush_progress", "XcmModel.C04.C04_btcp_wake",
@@ -11,6 +11,8 @@ THEOREMS = [
     "XcmModel.C16.C16_readable_when_met", "XcmModel.C16.C16_active_fd_iff_bell",
     "XcmModel.C04btls.C04_btls_handshake_watched", "XcmModel.C04btls.C04_btls_waiter_has_source", "XcmModel.C04btls.C04_btls_terminal_rings", "XcmModel.C04btls.C04_btls_pending_rings", "XcmModel.C04btls.C04_btls_retained_output_watched",
     "XcmModel.C04ux.C04_ux_each_condition_watched", "XcmModel.C04ux.C04_ux_server_watched",
+    "XcmModel.UtlsProps.C04_utls_condition_passed_down", "XcmModel.UtlsProps.C04_utls_server_finish", "XcmModel.UtlsProps.C04_utls_accept_reevaluates_server",
+    "XcmModel.C04stack.C04_tcp_stack_registers_output", "XcmModel.C04stack.C04_tcp_stack_wakeup", "XcmModel.C04stack.C04_tls_stack_has_source",
     "XcmModel.C04tp.C04_registrations_refreshed", "XcmModel.C04tp.C04_new_sockets_registered",
 ]
 
@@ -28,7 +30,8 @@ def run(ctx):
                 "back-pressure), then close; SPEC: the sender keeps condition 0, sends on speculation, awaits SENDABLE only after EAGAIN "
                 "and withdraws it before sending again, so its last accepted send is followed by no XCM call; link-time wrappers make "
                 "send()/recv() below XCM (and below OpenSSL's BIO) return EAGAIN or short counts in 0/30/60 per cent of the calls "
-                "(seeded); a watchdog reports a stall when work is owed and no fd has been readable for 4 s; the blocking forms "
+                "(seeded); DUPLEX: both ends send and receive, awaiting RECEIVABLE (unless pausing) plus SENDABLE while output is owed, one call per "
+                "wake-up, random reading pauses so that output is blocked while input arrives; a watchdog reports a stall when work is owed and no fd has been readable for 4 s; the blocking forms "
                 "(xcm_connect, xcm_accept, xcm_send, xcm_receive) run in threads under the same faults with a join timeout. "
                 "sys_quiet RONLY: after xcm_send reported EAGAIN the sender only awaits RECEIVABLE and answers wake-ups with xcm_receive; everything accepted must reach the reading peer. "
                 "unit_api/unit_framing: the update/flush model lines of C02/C03/C16 are re-run. distinct = (transport, fault rate, outcome)")
@@ -55,6 +58,9 @@ def run(ctx):
         for rate in ((0, 40) if quick else (0, 30, 60)):
             for sd in seeds:
                 cmds.append("SPEC %s %d %d %d" % (proto, 24 if quick else 64, rate, ctx.seed * 1000 + sd * 10 + rate + 2))
+        for rate in ((0, 40) if quick else (0, 30, 60)):
+            for sd in seeds:
+                cmds.append("DUPLEX %s %d %d %d" % (proto, 24 if quick else 64, rate, ctx.seed * 1000 + sd * 10 + rate + 3))
         for rate in ((40,) if quick else (0, 40)):
             for sd in seeds:
                 cmds.append("BLOCK %s %d %d %d" % (proto, 16 if quick else 48, rate, ctx.seed * 1000 + sd * 10 + rate + 1))
@@ -72,6 +78,14 @@ def run(ctx):
         ctx.count("%s.%s" % (w[0].lower(), w[1]))
         ctx.count("injected_eagain", int(f.get("eagain", 0)))
         ctx.count("injected_short", int(f.get("short", 0)))
+        if w[0] == "DUPLEX":
+            if f["stall"] != "0":
+                ctx.violation("sys_loop:monitor:stall:%s:duplex" % w[1], "the full-duplex event loop stalled on %s: work was owed but no xcm fd became readable (%s)" % (w[1], o), rep)
+            elif f["failed"] != "-":
+                ctx.violation("sys_loop:monitor:failed:%s:duplex" % w[1], "a full-duplex connection that was never disturbed beyond EAGAIN/short counts failed: %s" % o, rep)
+            elif not (f["complete"] == "1" and f["bad"] == "0"):
+                ctx.violation("sys_loop:monitor:incomplete:%s:duplex" % w[1], "full duplex: not every accepted message was delivered intact: %s" % o, rep)
+            continue
         if w[0] in ("LOOP", "SPEC"):
             if f["stall"] != "0":
                 ctx.violation("sys_loop:monitor:stall:%s%s" % (w[1], ":spec" if w[0] == "SPEC" else ""),
@@ -131,6 +145,10 @@ def run(ctx):
     for o2, l2 in zip(uops, um):
         ctx.nontriv(("ux-update", o2, l2))
     ctx.rule += " unit_ux: the registrations the real xcm_tp_ux.c makes for every awaited condition (conn and server), exhaustively, vs the Ux model."
+    # utls: the condition reaches the sub-socket(s) that can make it true
+    from gen import utls as _utls
+    _utls.run_part(ctx, 30 if quick else 1500, label="c04utls")
+    ctx.rule += " unit_utls: update / finish / accept of the real xcm_tp_utls.c over logging sub-transports vs the Lean Utls model."
     # the dispatch layer xcm_tp.c against the Lean Tp model
     from gen import tp as _tp
     texe = _tp.build()
